@@ -256,12 +256,13 @@ func mutateGrammar(r *rng, src []byte) []byte {
 	return []byte(s)
 }
 
+// shortHeads are very short inputs, byte order marks and their proper prefixes,
+// lone continuation and lead bytes: whatever looks at "the first few bytes".
+var shortHeads = []string{"", "\xef", "\xef\xbb", "\xef\xbb\xbf", "\xef\xbb\xbfA <- 'a'\n", "\xfe\xff", "\xff\xfe", "\xfe", "\xff", "\x00", "\xc3", "\xe2\x82", "\xf0\x9f\x98", "{", "}", "A", "A<", "A<-", "A <- ", "\n", "\r\n", "/", "//", "/*", "'", "\"", "[", "\\", "#", "%"}
+
 func randomBytes(r *rng) []byte {
 	if r.chance(1, 3) {
-		// very short inputs, byte order marks and their proper prefixes, lone
-		// continuation and lead bytes: whatever looks at "the first few bytes"
-		heads := []string{"", "\xef", "\xef\xbb", "\xef\xbb\xbf", "\xef\xbb\xbfA <- 'a'\n", "\xfe\xff", "\xff\xfe", "\xfe", "\xff", "\x00", "\xc3", "\xe2\x82", "\xf0\x9f\x98", "{", "}", "A", "A<", "A<-", "A <- ", "\n", "\r\n", "/", "//", "/*", "'", "\"", "[", "\\", "#", "%"}
-		h := heads[r.intn(len(heads))]
+		h := shortHeads[r.intn(len(shortHeads))]
 		if r.chance(1, 4) {
 			h += string([]byte{byte(r.intn(256))})
 		}
@@ -394,4 +395,29 @@ func genDeepGrammar(r *rng) toolInput {
 	fmt.Fprintf(&b, "W0 <- %s\n", sh.base)
 	return toolInput{Name: "gendeep", Class: "gendeep", Grammar: []byte(b.String()), Rules: names,
 		Attrs: map[string]string{"shape": "doubling-chain", "refs_all_visited": fmt.Sprint(sh.all), "depth": fmt.Sprint(depth), "body": sh.body, "base": sh.base}}
+}
+
+// genLRRecovery draws small left-recursive grammars whose recursive reference
+// sits under a recovery expression, a label, a group or a predicate prefix:
+// whatever walks to "the leftmost reference" has to walk through those.
+func genLRRecovery(r *rng) toolInput {
+	shapes := []string{
+		"E <- E '+' T / T //{e} X\nT <- [0-9]+\nX <- .\n",
+		"E <- ( E '+' T //{e} X ) / T\nT <- [0-9]+\nX <- .\n",
+		"E <- l:( E //{e} X ) '+' T / T\nT <- [0-9]+\nX <- .\n",
+		"A <- B 'x' //{e} X / 'a'\nB <- A 'y' / 'b'\nX <- .\n",
+		"E <- ( ( E ) ) '+' T / T\nT <- [0-9]+\n",
+		"E <- &'1' E '+' T / T\nT <- [0-9]+\n",
+		"E <- 'a'? E '+' T / T\nT <- [0-9]+\n",
+		"E <- ( E '+' T //{e} X //{f} X ) / T %{e}\nT <- [0-9]+\nX <- .\n",
+		"S <- E !.\nE <- ( E '+' T / T ) //{e} ( X //{f} E )\nT <- [0-9]+ / %{f}\nX <- .\n",
+	}
+	g := shapes[r.intn(len(shapes))]
+	if r.chance(1, 2) {
+		g = "{\npackage gen\n}\n" + g
+	}
+	if r.chance(1, 3) {
+		g = "Top <- 'k' E?\n" + g
+	}
+	return toolInput{Name: "lrrec", Class: "genlr", Grammar: []byte(g), Rules: []string{"E", "T"}}
 }
